@@ -93,12 +93,8 @@ func init() {
 		"    (unk : string -> option (@texec V SCP SINFO) -> bool) (r_interruptAfterNodes : list N)\n"+
 		"    (subGraphInterrupts : list (N * (SCP * SINFO))) (interruptRerunNodes : list N) (interruptAfterNodes : list N)\n"+
 		"    (completedTasks : list (N * @texec V SCP SINFO))\n"+
-		"  : res (list (N * (SCP * SINFO)) * list N * list N) :=\n"+
-		"  match first_fail completedTasks with\n"+
-		"  | Some e => Err e\n"+
-		"  | None => Ok (subGraphInterrupts ++ subpairs completedTasks, interruptRerunNodes ++ reruns completedTasks,\n"+
-		"                interruptAfterNodes ++ afters r_interruptAfterNodes completedTasks)\n"+
-		"  end.\n")
+		"  : res unit * (list (N * (SCP * SINFO)) * list N * list N) :=\n"+
+		"  resolve_model r_interruptAfterNodes subGraphInterrupts interruptRerunNodes interruptAfterNodes completedTasks.\n")
 	register("intrcfg", c06ExtractCfg)
 	registerFallback("intrcfg", "IntrCfg.v", "(* Gen/IntrCfg.v — translator tie UNAVAILABLE: tools/go2v (extractor \"intrcfg\") did not recognise the shape of\n"+
 		"   compose/interrupt.go (WithInterruptBeforeNodes, WithInterruptAfterNodes) / compose/graph.go (graph.compile); the\n"+
@@ -776,6 +772,8 @@ func c06NilOf(goType, kind string) (string, bool) {
 		return "(@nil N)", true
 	case "any", "interface{}":
 		return "(@None V)", true
+	case "bool":
+		return "false", true
 	case "map[string]*subGraphInterruptError":
 		return "(@nil (N * (SCP * SINFO)))", true
 	case "[]*task":
@@ -915,11 +913,12 @@ func c06ExtractResolve(repo string) (string, string, error) {
 		if len(r.Results) != 1 {
 			return "", c06Err(w, "return with %d results", len(r.Results))
 		}
+		// the error, and the accumulators as they are at that moment (the caller may ignore the error)
 		if c06IsNil(r.Results[0]) {
-			return "Ok " + c06Tuple(outs), nil
+			return "(Ok tt, " + c06Tuple(outs) + ")", nil
 		}
 		e, err := tr.expr(r.Results[0])
-		return "Err " + e, err
+		return "(Err " + e + ", " + c06Tuple(outs) + ")", err
 	}
 	body, err := c.stmts(fn.Body.List, "  ", func(string) (string, error) {
 		return "", c06Err(w, "control reaches the end of the function")
@@ -941,7 +940,7 @@ func c06ExtractResolve(repo string) (string, string, error) {
 	for i, r := range c06ResolveRoles {
 		fmt.Fprintf(&b, "    (%s : %s)\n", c06Name(names[i]), r.coq)
 	}
-	b.WriteString("  : res (list (N * (SCP * SINFO)) * list N * list N) :=\n  " + body + ".\n")
+	b.WriteString("  : res unit * (list (N * (SCP * SINFO)) * list N * list N) :=\n  " + body + ".\n")
 	return "IntrResolve.v", b.String(), nil
 }
 
@@ -968,6 +967,7 @@ type c06Run struct {
 	file     *ast.File
 	taskKind map[string]string // []*task variable -> "tex" (collected) | "V" (created)
 	fallOff  string            // what falling off the end of the translated block means
+	optRes   map[string]bool   // variables holding the result of calculateNextTasks that is reported beside isEnd
 }
 
 // callee parameters the translation does not hand on: they must be passed as the variable of that name
@@ -1088,6 +1088,10 @@ func (c *c06Run) ret(r *ast.ReturnStmt) (string, error) {
 	}
 	if c06IsNil(r.Results[1]) { // return result, nil
 		v, err := c.expr(r.Results[0])
+		if id, ok := r.Results[0].(*ast.Ident); ok && c.optRes[id.Name] {
+			// the value calculateNextTasks reports beside isEnd (nil when END has not been reached)
+			return "GReturn (done_of " + v + ")", err
+		}
 		return "GReturn (Done " + v + ")", err
 	}
 	if !c06IsNil(r.Results[0]) {
@@ -1185,9 +1189,10 @@ func (c *c06Run) stmts(l []ast.Stmt, ind string, k func(string) (string, error))
 		if call, method := c.recvCall(x.Rhs[0]); call != nil {
 			switch method {
 			case "resolveInterruptCompletedTasks":
-				if len(lhs) != 1 || lhs[0] != "err" || !guarded {
+				if len(lhs) != 1 || (lhs[0] != "err" && lhs[0] != "_") {
 					return bad()
 				}
+				checked := guarded && lhs[0] == "err"
 				m, err := c.callArgs(call, method)
 				if err != nil {
 					return "", err
@@ -1212,12 +1217,23 @@ func (c *c06Run) stmts(l []ast.Stmt, ind string, k func(string) (string, error))
 				if err != nil {
 					return "", err
 				}
+				callCode := "Gen.IntrResolve.resolve_interrupt_completed_tasks unk r_interruptAfterNodes " + strings.Join(a, " ")
+				if !checked {
+					// the error is not looked at: the run goes on with the accumulators as the failing call left them
+					r, err := rest(ind)
+					return "let '(_, " + c06Tuple(outs) + ") := " + callCode + " in\n" + ind + r, err
+				}
 				r, err := rest2(ind)
-				return "match Gen.IntrResolve.resolve_interrupt_completed_tasks unk r_interruptAfterNodes " + strings.Join(a, " ") + " with\n" +
-					ind + "| Ok " + c06Tuple(outs) + " =>\n" + ind + r + "\n" + ind + c06FailArm + "\n" + ind + "end", err
+				return "match " + callCode + " with\n" +
+					ind + "| (Ok _, " + c06Tuple(outs) + ") =>\n" + ind + r + "\n" + ind + "| (r, _) => GReturn (Failed (chan_err r))\n" + ind + "end", err
 			case "calculateNextTasks":
-				if len(lhs) != 3 || lhs[2] != "err" || !guarded {
+				if (len(lhs) != 3 && len(lhs) != 4) || lhs[len(lhs)-1] != "err" || !guarded {
 					return bad()
+				}
+				// (nextTasks, result, err): a nil result means "END not reached";
+				// (nextTasks, result, isEnd, err): reaching END is reported separately from the value
+				if fn := c06MethodOf(c.file, "runner", method); fn == nil || fn.Type.Results == nil || fn.Type.Results.NumFields() != len(lhs) {
+					return "", c06Err(c.where, "calculateNextTasks does not return %d values", len(lhs))
 				}
 				m, err := c.callArgs(call, method)
 				if err != nil {
@@ -1233,6 +1249,15 @@ func (c *c06Run) stmts(l []ast.Stmt, ind string, k func(string) (string, error))
 					}
 				} else if arg, err = c.expr(m["completedTasks"]); err != nil {
 					return "", err
+				}
+				if len(lhs) == 4 {
+					if c.optRes == nil {
+						c.optRes = map[string]bool{}
+					}
+					c.optRes[lhs[1]] = true
+					r, err := rest2(ind)
+					return "match calculate_next_tasks_end fold getr cm " + arg + " with\n" +
+						ind + "| Ok (cm, " + c06Name(lhs[0]) + ", " + c06Name(lhs[1]) + ", " + c06Name(lhs[2]) + ") =>\n" + ind + r + "\n" + ind + c06FailArm + "\n" + ind + "end", err
 				}
 				r, err := rest2(ind)
 				return "match calculate_next_tasks fold getr cm " + arg + " with\n" +
